@@ -32,6 +32,7 @@ func runC03(c *Ctx, r *Report) {
 	c03Write(c, r, "C03.R11")
 	c03HalfCloser(c, r, "C03.R14")
 	c03TeeBranch(c, r, "C03.R15")
+	c01R7(c, r, "C03.R17") // every byte from the first unconsumed one reaches the upstreams: handlers in front of the proxy hand on what they have buffered
 	c08R6(c, r, "C03.R16") // the relay starts with the client's own bytes: a new connection's matching buffer is proven empty (server and listener wrapper alike)
 	c11PeerKey(c, r, "C03.R13") // each upstream of the group is its own backend: two dial addresses never collapse into one peer
 	c05R23(c, r, "C03.R12")     // the relay runs without the matching deadline: a deadline left armed on the client socket cuts the client->upstream direction when it passes
